@@ -21,6 +21,7 @@ import Kvass.Proofs.LoopStay
 import Kvass.Proofs.LoopFaulty
 import Kvass.Proofs.LoopScrapes
 import Kvass.Proofs.LoopPos
+import Kvass.Proofs.LoopRegime
 
 namespace Kvass.Props.C06
 open Kvass Kvass.Coord Kvass.Spec
@@ -787,5 +788,149 @@ example : ((Loop.cycles (fun x r => x * r / 10) pEnv pW0 [{ assign := [1, 2] }])
     ((Loop.cycles (fun x r => x * r / 10) pEnv pW0 [{ assign := [1, 2] }, { assign := [1, 2] }]).shards.map
         fun sh => (Loop.statusOf sh).map fun p => p.1) = [[1], [2]] := by
   decide
+
+/-! ### convergence over many cycles, for systems without overload (C03's first sentence) -/
+
+/-- **C03 / C06: convergence over any number of cycles, without overload.**  The regime
+    (`Loop.Regime`): relief and scale-down switched off, size within [min, max], every discovered
+    target held and every held target discovered, every target on at most two running sidecars and
+    never twice in transfer, sidecar states consistent (`WInv`).  It is kept by every scrape and
+    every fault-free cycle (`C06_regime_invariant`), whatever the scrape counters.  Along any history
+    of scrapes and fault-free cycles — any order, any length — in which every copy held at the start
+    is scraped at least three times, followed by one more fault-free cycle, the converged state of
+    C03 is reached: the StatefulSet keeps its size, every reported target is in normal state, none is
+    reported twice, every discovered target is reported.  (Further cycles then change nothing:
+    `C06_recovers_and_stays`.) -/
+theorem C06_converges_without_overload (swr : Swr) (env : Loop.Env) (w : Loop.World) (ops : List Loop.Op) (sc : Sched)
+    (r : Loop.Regime env w) (hall : ∀ op ∈ ops, Loop.quietOp op = true)
+    (h3 : ∀ (i : Nat) (sh : Loop.Shard) (h : Hash), w.running[i]? = some sh → (Loop.statusOf sh).has h = true →
+      3 ≤ Loop.scrapeCount ops i h) :
+    (Loop.run swr env w (ops ++ [.cycle sc [] false])).replicas = w.replicas ∧
+    (∀ (i : Nat) (sh' : Loop.Shard) (h : Hash) (v : St), i < w.replicas →
+      (Loop.run swr env w (ops ++ [.cycle sc [] false])).shards[i]? = some sh' →
+      (Loop.statusOf sh').get h = some v → v.state = .normal) ∧
+    (∀ (i j : Nat) (shi shj : Loop.Shard) (h : Hash), i < w.replicas → j < w.replicas → i ≠ j →
+      (Loop.run swr env w (ops ++ [.cycle sc [] false])).shards[i]? = some shi →
+      (Loop.run swr env w (ops ++ [.cycle sc [] false])).shards[j]? = some shj →
+      (Loop.statusOf shi).has h = true → (Loop.statusOf shj).has h = true → False) ∧
+    (∀ h ∈ w.active, Loop.Held (Loop.run swr env w (ops ++ [.cycle sc [] false])) h) :=
+  Loop.regime_converges_counting swr env w ops sc r hall h3
+
+/-- the regime is an invariant of scrapes, fault-free cycles and sidecar restarts -/
+theorem C06_regime_invariant (swr : Swr) (env : Loop.Env) (ops : List Loop.Op) (w : Loop.World)
+    (hall : ∀ op ∈ ops, Loop.quietOpR op = true) (r : Loop.Regime env w) : Loop.Regime env (Loop.run swr env w ops) :=
+  Loop.regime_runR swr env ops w hall r
+
+/-- … hence convergence also after restarts (which reset the scrape counters): whatever history of
+    scrapes, fault-free cycles and restarts `pre` came before, once every copy held after it has been
+    scraped three times (during `ops`: scrapes and fault-free cycles), the next cycle reaches the
+    converged state -/
+theorem C06_converges_after_restarts (swr : Swr) (env : Loop.Env) (w : Loop.World) (pre ops : List Loop.Op) (sc : Sched)
+    (r : Loop.Regime env w) (hpre : ∀ op ∈ pre, Loop.quietOpR op = true) (hall : ∀ op ∈ ops, Loop.quietOp op = true)
+    (h3 : ∀ (i : Nat) (sh : Loop.Shard) (h : Hash), (Loop.run swr env w pre).running[i]? = some sh →
+      (Loop.statusOf sh).has h = true → 3 ≤ Loop.scrapeCount ops i h) :
+    (∀ (i : Nat) (sh' : Loop.Shard) (h : Hash) (v : St), i < (Loop.run swr env w pre).replicas →
+      (Loop.run swr env w (pre ++ (ops ++ [.cycle sc [] false]))).shards[i]? = some sh' →
+      (Loop.statusOf sh').get h = some v → v.state = .normal) ∧
+    (∀ (i j : Nat) (shi shj : Loop.Shard) (h : Hash), i < (Loop.run swr env w pre).replicas →
+      j < (Loop.run swr env w pre).replicas → i ≠ j →
+      (Loop.run swr env w (pre ++ (ops ++ [.cycle sc [] false]))).shards[i]? = some shi →
+      (Loop.run swr env w (pre ++ (ops ++ [.cycle sc [] false]))).shards[j]? = some shj →
+      (Loop.statusOf shi).has h = true → (Loop.statusOf shj).has h = true → False) ∧
+    (∀ h ∈ (Loop.run swr env w pre).active, Loop.Held (Loop.run swr env w (pre ++ (ops ++ [.cycle sc [] false]))) h) := by
+  have r1 := Loop.regime_runR swr env pre w hpre r
+  have hrun : Loop.run swr env w (pre ++ (ops ++ [.cycle sc [] false])) =
+      Loop.run swr env (Loop.run swr env w pre) (ops ++ [.cycle sc [] false]) := by
+    unfold Loop.run; rw [List.foldl_append]
+  rw [hrun]
+  obtain ⟨_, c2, c3, c4⟩ := Loop.regime_converges_counting swr env _ ops sc r1 hall h3
+  exact ⟨c2, c3, c4⟩
+
+/-- … and in it a cycle never restarts a scrape counter, scrapes advance it by one: at the end of such
+    a history every counter is the initial one plus the number of scrapes -/
+theorem C06_regime_counters (swr : Swr) (env : Loop.Env) (ops : List Loop.Op) (w : Loop.World)
+    (hall : ∀ op ∈ ops, Loop.quietOp op = true) (r : Loop.Regime env w)
+    (i : Nat) (sh' : Loop.Shard) (h : Hash) (v' : St) (hrun : (Loop.run swr env w ops).running[i]? = some sh')
+    (hv : (Loop.statusOf sh').get h = some v') :
+    ∃ sh v, w.running[i]? = some sh ∧ (Loop.statusOf sh).get h = some v ∧ v'.times = v.times + Loop.scrapeCount ops i h :=
+  Loop.regime_run_times swr env ops w hall r i sh' h v' hrun hv
+
+/-- non-vacuity: the young world of above, with cycles interleaved between the scrapes -/
+def exMixed : List Loop.Op :=
+  [.scrape 0 1 (some (10, 10)), .scrape 1 1 (some (10, 10)), .cycle {} [] false, .scrape 0 2 (some (10, 10)), .scrape 1 2 none,
+   .scrape 0 1 (some (10, 10)), .cycle {} [] false, .scrape 1 1 (some (10, 10)), .scrape 0 2 (some (10, 10)), .scrape 1 2 (some (10, 10)),
+   .cycle {} [] false, .scrape 0 1 none, .scrape 1 1 (some (10, 10)), .scrape 0 2 (some (10, 10)), .scrape 1 2 (some (10, 10))]
+
+/-- the duplicate of target 2 is resolved by the third cycle of the history (both copies have three
+    scrapes by then), the hand-over of target 1 by the cycle after it -/
+example : (∀ op ∈ exMixed, Loop.quietOp op = true) ∧ (∀ i < 2, ∀ h ∈ [1, 2], 3 ≤ Loop.scrapeCount exMixed i h) ∧
+    ((Loop.run (fun x r => x * r / 10) exEnv exYoung exMixed).shards.map
+      fun sh => (Loop.statusOf sh).map fun p => (p.1, p.2.state, p.2.times)) =
+      [[(1, .inTransfer, 3), (2, .normal, 4)], [(1, .normal, 3)]] ∧
+    ((Loop.run (fun x r => x * r / 10) exEnv exYoung (exMixed ++ [.cycle {} [] false])).shards.map
+      fun sh => (Loop.statusOf sh).map fun p => (p.1, p.2.state)) = [[(2, .normal)], [(1, .normal)]] := by
+  decide
+
+/-- the young example world is in the regime -/
+example : Loop.Regime exEnv exYoung := by
+  have hrun : exYoung.running = exYoung.shards := by rfl
+  have hget : ∀ (i : Nat) (sh : Loop.Shard), exYoung.running[i]? = some sh →
+      (i = 0 ∧ sh = exYoung.shards[0]!) ∨ (i = 1 ∧ sh = exYoung.shards[1]!) := by
+    intro i sh hi
+    rw [hrun] at hi
+    match i with
+    | 0 => left; simp [exYoung] at hi ⊢; exact hi.symm
+    | 1 => right; simp [exYoung] at hi ⊢; exact hi.symm
+    | i + 2 => simp [exYoung] at hi
+  have hst : ∀ (i : Nat) (sh : Loop.Shard) (h : Hash) (v : St), exYoung.running[i]? = some sh →
+      (Loop.statusOf sh).get h = some v → (h = 1 ∨ h = 2) ∧ (i = 1 → v.state = .normal) := by
+    intro i sh h v hi hv
+    rcases hget i sh hi with ⟨rfl, rfl⟩ | ⟨rfl, rfl⟩
+    · simp [exYoung, Loop.statusOf, AL.get] at hv
+      split at hv
+      · rename_i e; subst e; cases hv; simp
+      · split at hv
+        · rename_i e; subst e; cases hv; simp
+        · cases hv
+    · simp [exYoung, Loop.statusOf, AL.get] at hv
+      split at hv
+      · rename_i e; subst e; cases hv; simp [Loop.stOf]
+      · split at hv
+        · rename_i e; subst e; cases hv; simp [Loop.stOf]
+        · cases hv
+  have hsinv : ∀ sh ∈ exYoung.shards, Loop.SInv sh := by
+    intro sh hm
+    simp [exYoung] at hm
+    rcases hm with rfl | rfl
+    · refine ⟨⟨?_, ?_, ?_⟩, ?_, by decide⟩
+      · intro t ht; simp at ht; rcases ht with rfl | rfl <;> decide
+      · intro k; simp [AL.keys]
+      · intro t ht; simp at ht; rcases ht with rfl | rfl <;> simp [AL.get]
+      · intro _; rfl
+    · refine ⟨⟨?_, ?_, ?_⟩, ?_, by decide⟩
+      · intro t ht; simp at ht; rcases ht with rfl | rfl <;> decide
+      · intro k; simp [AL.keys]
+      · intro t ht; simp at ht; rcases ht with rfl | rfl <;> simp [AL.get]
+      · intro _; rfl
+  refine ⟨⟨⟨by decide, hsinv⟩, by decide⟩, by decide, by decide, by decide, ?_, ?_, ?_, ?_⟩
+  · intro i j shi shj h vi vj hi hj hij hvi hvj ⟨ti, tj⟩
+    obtain ⟨_, ni⟩ := hst i shi h vi hi hvi
+    obtain ⟨_, nj⟩ := hst j shj h vj hj hvj
+    rcases hget i shi hi with ⟨rfl, _⟩ | ⟨rfl, _⟩
+    · rcases hget j shj hj with ⟨rfl, _⟩ | ⟨rfl, _⟩
+      · exact hij rfl
+      · rw [nj rfl] at tj; cases tj
+    · rw [ni rfl] at ti; cases ti
+  · intro i j k shi shj shk h hi hj hk _ _ _
+    rcases hget i shi hi with ⟨rfl, _⟩ | ⟨rfl, _⟩ <;> rcases hget j shj hj with ⟨rfl, _⟩ | ⟨rfl, _⟩ <;>
+      rcases hget k shk hk with ⟨rfl, _⟩ | ⟨rfl, _⟩ <;> simp
+  · intro sh hm h v hv
+    obtain ⟨i, hi⟩ := List.getElem?_of_mem hm
+    rcases (hst i sh h v hi hv).1 with rfl | rfl <;> simp [exYoung]
+  · intro h ha
+    simp [exYoung] at ha
+    rcases ha with rfl | rfl
+    · exact ⟨1, exYoung.shards[1]!, by rfl, by decide⟩
+    · exact ⟨1, exYoung.shards[1]!, by rfl, by decide⟩
 
 end Kvass.Props.C06
